@@ -590,7 +590,7 @@ FACTORS = [
     ("brlenspr", ["exponential", "gammadir"]),
     ("brlens_init", ["none", "tree", "0.05"]), ("keep", [0, 1]),
     ("freqs", ["none", "empirical", "equal", "list"]),
-    ("misc", ["none", "use_ambiguities", "use_tip_states", "use_path", "location"]),
+    ("misc", ["none", "use_ambiguities", "use_tip_states", "use_path", "location", "include_jacobian"]),
     ("q", ["default", "meanfield", "fullrank", "realnvp", "flexible"]),
     ("distribution", ["Normal", "LogNormal", "Gamma"]),
     ("divergence", ["ELBO", "KLpq"]), ("kgrad", [1, 3]), ("kelbo", [1, 3]),
@@ -752,7 +752,7 @@ def build_argv(c):
                     req["substmodel.3.frequencies"] = [0.1, 0.2, 0.3, 0.4]
                 else:
                     req["substmodel.frequencies"] = [0.1, 0.2, 0.3, 0.4]
-    if c["misc"] in ("use_ambiguities", "use_tip_states", "use_path"):
+    if c["misc"] in ("use_ambiguities", "use_tip_states", "use_path", "include_jacobian"):
         a += ["--" + c["misc"]]
     elif c["misc"] == "location":
         a += ["--location_regex", "^A_([A-Za-z0-9]+)_"]
@@ -903,6 +903,10 @@ PROBES = [
     "hmc --clock strict --coalescent skyride --coalescent_non_centered --coalescent_init 7.5",
     "advi --poisson --clock strict --coalescent constant",
     "hmc --location_regex ^A_([A-Za-z0-9]+)_ --clock strict",
+    "hmc --clock strict --coalescent constant --include_jacobian",
+    "mcmc --clock strict --coalescent constant --include_jacobian",
+    "advi --clock strict --coalescent constant --include_jacobian",
+    "map --clock strict --coalescent constant --include_jacobian",
 ]
 
 
